@@ -17,4 +17,18 @@ fn registered_metrics_are_listed_even_when_idle() {
     let v = snap.snapshot().into_vec();
     assert!(matches!(&v[1].3, DebugValue::Histogram(xs) if xs.len() == 1));
     assert_eq!(names(snap.snapshot()), vec!["a", "b", "c"], "a drained histogram is still listed");
+    // "exactly the values recorded since the previous snapshot, each value in exactly one snapshot" -- with more values than
+    // one storage block holds, in recording order
+    for i in 0..150 { h.record(i as f64); }
+    let v = snap.snapshot().into_vec();
+    match &v[1].3 {
+        DebugValue::Histogram(xs) => {
+            let got: Vec<f64> = xs.iter().map(|x| x.into_inner()).collect();
+            let mut sorted = got.clone();
+            sorted.sort_by(|a, b| a.partial_cmp(b).unwrap());
+            assert_eq!(sorted, (0..150).map(|i| i as f64).collect::<Vec<_>>(), "all 150 values, each once");
+        }
+        other => panic!("not a histogram: {other:?}"),
+    }
+    assert!(matches!(&snap.snapshot().into_vec()[1].3, DebugValue::Histogram(xs) if xs.is_empty()), "and none of them a second time");
 }
